@@ -449,4 +449,81 @@ def xcovCheck (half : Nat) (A : CM) : Except XErr CM :=
 `(i, i + half)`; entries are `(first mode, second mode, index of the Takagi value)` -/
 def xcovSqueezers (half : Nat) : List (Nat × Nat × Nat) := (List.range half).map fun i => (i, i + half, i)
 
+/-! ## `Borealis.add_loss` and `program_utils.remove_loss` -/
+
+/-- argument of an inserted `LossChannel`: a number from the certificate, or the new per-time-bin loop variable -/
+inductive LossArg
+  | num (q : Rat)
+  | param
+deriving Repr, DecidableEq
+
+/-- a command of the lossy circuit: an original command `(class, modes)` or an inserted loss channel -/
+inductive LCmd
+  | gate (cls : String) (regs : List Nat)
+  | loss (arg : LossArg) (regs : List Nat)
+deriving Repr, DecidableEq
+
+/-- the `for i, s in enumerate(program.circuit)` loop of `add_loss`: loss before a `MeasureFock` (the new loop variable, on
+its modes), the command itself, loss after an `Sgate` (`common_efficiency`, on its modes) and after a `BSgate`
+(`loop_efficiencies[loop]` on its SECOND mode; `loop` counts the beamsplitters).  `none` = `IndexError` (more
+beamsplitters than loop efficiencies, or a one-mode `BSgate`). -/
+def addLoss (etaGlob : Rat) (etasLoop : List Rat) : Nat → List (String × List Nat) → Option (List LCmd)
+  | _, [] => some []
+  | loop, (cls, regs) :: rest =>
+    let pre := if cls = "MeasureFock" then [LCmd.loss .param regs] else []
+    let mid := pre ++ [LCmd.gate cls regs] ++ (if cls = "Sgate" then [LCmd.loss (.num etaGlob) regs] else [])
+    if cls = "BSgate" then
+      match etasLoop[loop]?, regs[1]? with
+      | some eta, some r => (addLoss etaGlob etasLoop (loop + 1) rest).map fun t => mid ++ [LCmd.loss (.num eta) [r]] ++ t
+      | _, _ => none
+    else (addLoss etaGlob etasLoop loop rest).map fun t => mid ++ t
+
+/-- `remove_loss`: drop every `LossChannel` -/
+def removeLoss : List LCmd → List (String × List Nat)
+  | [] => []
+  | .gate c r :: rest => (c, r) :: removeLoss rest
+  | .loss _ _ :: rest => removeLoss rest
+
+/-! ## `tdm.utils.make_phases_compatible` (angles in units of π) -/
+
+/-- one phase of loop ≥ 1: `phi_corr = (phi + corr − prev) % 2π`, `> π ⇒ − 2π`; if that is outside `[−π/2, π/2]` the
+argument becomes `(phi + π) % 2π` -/
+def makeCompatible (phi corr prev : Rat) : Rat :=
+  let w := wrapPi (phi + corr - prev)
+  if w < -1 / 2 ∨ w > 1 / 2 then mod2 (phi + 1) else phi
+
+/-- `for loop in sorted(gate_args["loops"])`: loop 0 keeps its phases, `corr_previous_loop = corr_loop` after EVERY loop -/
+def makeCompatLoops (len : Nat) : (first : Bool) → (prev : Nat → Rat) → List (Rat × Nat × List Rat) → List (List Rat)
+  | _, _, [] => []
+  | first, prev, (offset, delay, phis) :: rest =>
+    let out := if first then phis else
+      (List.range len).map fun j => makeCompatible (phis.getD j 0) (corrAt offset delay j) (prev j)
+    out :: makeCompatLoops len false (corrAt offset delay) rest
+
+/-! ## `Compiler.compile`: hard-coded parameters of the layout; `validate_gate_parameters`: fixed layout values -/
+
+/-- a gate argument as the two checks see it: a number, a bare SymPy symbol (template / free parameter), or another
+SymPy expression -/
+inductive GArg
+  | num (q : Rat)
+  | sym (name : String)
+  | expr (name : String)
+deriving Repr, DecidableEq
+
+def GArg.isSymbol : GArg → Bool | .sym _ => true | _ => false
+/-- `isinstance(y, sympy.Expr)`: symbols are expressions -/
+def GArg.isExpr : GArg → Bool | .num _ => false | _ => true
+
+/-- `Compiler.compile`: `x != y and not (isinstance(x, Symbol) or isinstance(y, Expr))` for some zipped pair ⇒
+"incompatible parameter values"; `x` from the layout, `y` from the program -/
+def hardCodedClash (layoutArgs progArgs : List GArg) : Bool :=
+  (layoutArgs.zip progArgs).any fun xy => decide (xy.1 ≠ xy.2) && !(xy.1.isSymbol || xy.2.isExpr)
+
+/-- `_fixed_layout_values_match` node rule: two numbers farther apart than `atol = 1e-5` do not match -/
+def fixedValuesMatch (layoutArgs progArgs : List GArg) : Bool :=
+  (layoutArgs.zip progArgs).all fun xy =>
+    match xy.1, xy.2 with
+    | .num a, .num b => decide (a - b ≤ defaultAtol ∧ b - a ≤ defaultAtol)
+    | _, _ => true
+
 end SFV.Hw
